@@ -299,6 +299,7 @@ class Capture:
     ctx: list
     ctx_vg: tuple
     psnap: dict = None    # canonical provider snapshot at capture time
+    epoch: int = 0           # epoch (SequenceId / InstanceId period of the provider) in which the capture was taken
     live_wires: list = None  # wire indices of the transaction that was committed while the GetMdib request was being answered
 
 
@@ -957,6 +958,7 @@ class HistoryRecorder:
             cap.live_wires = box['wires']
             if self.count:
                 self.count('capture:commit-during-GetMdib')
+        cap.epoch = self.epoch
         h.captures.append(cap)
         return len(h.captures) - 1
 
@@ -1629,6 +1631,11 @@ class Runner:
                 self.fail('initializing-mdib-updated', f'{where}: tables changed while GetMdib is in flight')
             return
         ids_differ = rep.vg[1:] != before_vg[1:]
+        if ids_differ and getattr(self, 'loaded_epoch', None) == hist.epoch_of_tx[hist.tx_of_wire[i]] and \
+                rep.vg[1:] != self.loaded_ids:
+            self.fail('same-epoch-report-with-other-ids',
+                      f'{where}: the report belongs to the same provider epoch as the loaded GetMdib answer but carries '
+                      f'(SequenceId, InstanceId) #{rep.vg[1:]} instead of #{self.loaded_ids} of that answer: the consumer stops following')
         if ids_differ:
             if after_mode != 'inv' or changed:
                 self.fail('id-change-not-stopped', f'{where}: SequenceId/InstanceId differ but consumer went on ({after_mode}, changed={changed})')
@@ -1825,6 +1832,8 @@ class Runner:
             self.fail('reload-buffer-not-empty', where)
         self.delivered = set()
         self.max_delivered = -1
+        self.loaded_epoch = cap.epoch
+        self.loaded_ids = cap.snap.vg[1:]
         # a state that was loaded (GetMdib / GetContextStates answer) must not be replaced by an older version
         loaded_c = cap.snap.cstates or hist.captures[ctx_idx].ctx
         for tab, loaded, name, svi in ((1, cap.snap.states, 'state', 2), (2, loaded_c, 'context state', 3)):
